@@ -311,6 +311,23 @@ def runProg (H : Heap) : List MOp → MState → Option MState
                                           got := none, result := some true }
       | none => runProg H rest { m with result := some false }
 
+/-! ## a worker iteration split by an unlock/lock pair (kept for a witness)
+
+`worker_coro` holds `_mx` from its stop check through `get_expired_lk` until `wait_until` releases it atomically: one
+iteration is one lock region (`stepPoll`).  A variant that drops the mutex between computing the time point `x` and
+`_cond.wait_until(lk, x)` (e.g. "do not call `pool->any_enqueued()` under `_mx`") is two regions: -/
+
+/-- first half: `get_expired_lk(now)` … `lk.unlock()`; the worker remembers the time point it got -/
+def stepPollGapA (H : Heap) (s : State) (w now : Nat) : State × Res :=
+  let ws := s.waits.filter (fun p => p.1 ≠ w)
+  match getExpiredLk H s.heap now with
+  | (h, some e) => ({ s with heap := h, waits := ws, log := s.log ++ [mkDone e (Fate.expired now) s.nextSerial] },
+                    Res.expired e)
+  | (h, none) => ({ s with heap := h, waits := ws }, Res.next (topTime h))
+
+/-- second half: `lk.lock(); _cond.wait_until(lk, x)` with the remembered `x` -/
+def stepPollGapB (s : State) (w : Nat) (x : Option Nat) : State := { s with waits := s.waits ++ [(w, x)] }
+
 end Cocls.Sched
 
 /-! ## the stop handshake between `~scheduler()` / `start()` and `worker_coro`
@@ -324,6 +341,7 @@ inductive WPc where
   | idle      -- not holding `_mx` (loop top / `co_await pause()`)
   | locked    -- holds `_mx`, `if (state.stop_requested()) break;` passed
   | waiting   -- parked in `_cond.wait_until(lk, x)` (`_mx` released)
+  | gap       -- (variant with a split iteration only) `_mx` dropped between the stop check and `wait_until`
   | exited    -- left the loop: the worker coroutine finishes, `_glob_state->_fut` resolves
   deriving DecidableEq, Repr
 
@@ -346,6 +364,8 @@ inductive Act where
   | sLock          -- … and runs the stop callback: (repaired) `std::lock_guard _(_mx);`
   | sNotify        -- `_cond.notify_all();`
   | sUnlock        -- (repaired) end of the callback
+  | wPollRelease   -- (split iteration only) worker: time point computed, `lk.unlock()`
+  | wRelockWait    -- (split iteration only) worker: `lk.lock(); _cond.wait_until(lk, x)`
   deriving DecidableEq, Repr
 
 def wakeIfWaiting (w : WPc) : WPc := if w = WPc.waiting then WPc.idle else w
@@ -378,6 +398,14 @@ def stepAsIs (s : St) (a : Act) : Option St :=
   | Act.sLock => none
   | Act.sUnlock => none
   | _ => workerStep s a
+
+/-- the repaired callback, but a worker iteration that releases `_mx` between its stop check and its `wait_until` -/
+def stepGap (s : St) (a : Act) : Option St :=
+  match a with
+  | Act.wPollRelease => if s.w = WPc.locked then some { s with w := WPc.gap } else none
+  | Act.wRelockWait =>
+      if s.w = WPc.gap ∧ s.sp ≠ SPc.holding ∧ s.sp ≠ SPc.notified then some { s with w := WPc.waiting } else none
+  | _ => step s a
 
 /-- a schedule: actions that are not enabled are skipped -/
 def run (f : St → Act → Option St) (s : St) (acts : List Act) : St :=
